@@ -90,6 +90,7 @@ func (bsm *blockstoreManager) getBlockSizes(ctx context.Context, ks []cid.Cid) (
 		return nil, nil
 	}
 	sizes := make([]int, len(ks))
+	found := make([]bool, len(ks))
 
 	var count atomic.Int32
 	err := bsm.jobPerKey(ctx, ks, func(i int, c cid.Cid) {
@@ -102,6 +103,7 @@ func (bsm *blockstoreManager) getBlockSizes(ctx context.Context, ks []cid.Cid) (
 			return
 		}
 		sizes[i] = size
+		found[i] = true
 		count.Add(1)
 	})
 	if err != nil {
@@ -114,7 +116,8 @@ func (bsm *blockstoreManager) getBlockSizes(ctx context.Context, ks []cid.Cid) (
 
 	res := make(map[cid.Cid]int, results)
 	for i, n := range sizes {
-		if n != 0 {
+		// A block of length zero is present too.
+		if found[i] {
 			res[ks[i]] = n
 		}
 	}
